@@ -7,24 +7,28 @@
 //! calls on a current-thread tokio runtime with a paused clock.
 //!
 //! Ops
-//!   `sys <feed> <audit> <trading> <k> <x2> <quote> <base>`
+//!   `sys <feed> <audit> <trading> <k> <x2> <quote> <base> <latency>`
 //!        feed = iter|stream|dflt, audit = on|off|dflt, trading = on|off|dflt (dflt: the builder
 //!        method is not called), k instruments on exchange 0 (instrument j: base asset b<j>, quote
-//!        asset q), x2 = 0|1 adds instrument k on exchange 1, initial exchange balances
+//!        asset q), x2 = 0|1 adds instrument k on exchange 1, initial exchange balances, latency of
+//!        the mock exchange in ms of (virtual) tokio time
 //!   `mkt i:p[:S:q] ...`  push market trades into the market stream (id = running count; a trade
 //!        with `:S:q` makes the strategy answer with a market order side S quantity q at price p,
 //!        client order id 7000+id, the first time it is consulted after the trade was processed)
 //!   `mktre`              push a `MarketStreamEvent::Reconnecting(exchange 0)`
 //!   `call open <req>..` | `call cancel <req>..` | `call close <filter>` | `call cancel_orders <filter>`
 //!        | `call trading on|off`      the `System` methods of the same names
-//!   `settle`             await (tokio yields only; virtual time never moves) until everything sent
-//!        so far has been processed and every reaction has come back
+//!   `settle`             await (tokio yields only; virtual time does not move) until everything sent
+//!        so far has been processed and every reaction that is due has come back
+//!   `sleep <ms>`         `tokio::time::advance(ms)` (the paused clock moves), then `settle`
 //!   `take_audit`         `System::take_audit`
 //!   `shutdown` | `abort` | `join`     `System::shutdown` / `System::abort` / awaiting the public
 //!        `engine` join handle directly (only generated once the engine has stopped by itself)
 //!
 //! The engine's clock is a recording `EngineClock` (`Engine::process` hands it every event first),
-//! so the harness sees exactly which events reached `Engine::process`, in which order.
+//! so the harness sees exactly which events reached `Engine::process`, in which order; the `time()`
+//! call that `Auditor::audit` makes after `Engine::process` has returned tells it that an event has
+//! been processed completely.
 //! The account channel of the `SystemBuild` is tapped by a counting relay (one extra FIFO hop
 //! between the execution components and the system's own account forwarder): the count is what
 //! makes quiescence detectable when the engine runs on its own blocking thread.
@@ -119,11 +123,29 @@ struct Shared {
 }
 
 /// `EngineClock` whose `process` records the event and whose `time` is a strictly increasing
-/// counter (no wall clock anywhere in a run).
-#[derive(Debug, Clone)]
+/// counter (no wall clock anywhere in a run). The instance the builder moves into the engine is the
+/// original; the execution clients get clones (`SystemBuilder::build`: `clock.clone()`), so calls of
+/// `time()` on the ORIGINAL are: one for `time_engine_start`, one in `Engine::new`, one for the audit
+/// snapshot if enabled, and then exactly one per processed event, made by `Auditor::audit` AFTER
+/// `Engine::process` has returned (engine/mod.rs:88-89) - which is how the harness knows that an
+/// event has been processed completely (all its requests sent), not merely begun.
+#[derive(Debug)]
 struct RecClock {
     shared: Arc<Mutex<Shared>>,
     ticks: Arc<AtomicI64>,
+    original: bool,
+    original_time_calls: Arc<AtomicUsize>,
+}
+
+impl Clone for RecClock {
+    fn clone(&self) -> Self {
+        Self {
+            shared: Arc::clone(&self.shared),
+            ticks: Arc::clone(&self.ticks),
+            original: false,
+            original_time_calls: Arc::clone(&self.original_time_calls),
+        }
+    }
 }
 
 impl RecClock {
@@ -131,13 +153,19 @@ impl RecClock {
         Self {
             shared: Arc::new(Mutex::new(Shared::default())),
             ticks: Arc::new(AtomicI64::new(0)),
+            original: true,
+            original_time_calls: Arc::new(AtomicUsize::new(0)),
         }
     }
 }
 
 impl EngineClock for RecClock {
     fn time(&self) -> DateTime<Utc> {
-        time_ms(1_000_000 + self.ticks.fetch_add(1, Ordering::SeqCst))
+        let t = time_ms(1_000_000 + self.ticks.fetch_add(1, Ordering::SeqCst));
+        if self.original {
+            self.original_time_calls.fetch_add(1, Ordering::SeqCst);
+        }
+        t
     }
 }
 
@@ -279,6 +307,7 @@ struct Cfg {
     x2: bool,
     quote: Decimal,
     base: Decimal,
+    latency_ms: u64,
 }
 
 fn instruments(cfg: &Cfg) -> IndexedInstruments {
@@ -587,6 +616,9 @@ struct Running {
     shared: Arc<Mutex<Shared>>,
     market_tx: tokio::sync::mpsc::UnboundedSender<MarketStreamEvent<InstrumentIndex, DataKind>>,
     relayed: Arc<AtomicUsize>,
+    /// `time()` calls on the engine's own clock, and how many of them precede the run loop
+    engine_time_calls: Arc<AtomicUsize>,
+    time_calls_before_loop: usize,
     /// events put on the feed by the handle / pushed into the market stream so far
     handle_sent: usize,
     mkt_pushed: usize,
@@ -613,7 +645,7 @@ fn exec_configs(cfg: &Cfg) -> Vec<ExecutionConfig> {
     vec![ExecutionConfig::Mock(MockExecutionConfig {
         mocked_exchange: EX[0],
         initial_state: UnindexedAccountSnapshot { exchange: EX[0], balances, instruments: vec![] },
-        latency_ms: 0,
+        latency_ms: cfg.latency_ms,
         fees_percent: Decimal::ZERO,
     })]
 }
@@ -623,6 +655,7 @@ async fn build(cfg: Cfg, lines: &mut Vec<String>) -> Running {
     let labels = Labels::new(&ii, &cfg);
     let clock = RecClock::new();
     let shared = Arc::clone(&clock.shared);
+    let engine_time_calls = Arc::clone(&clock.original_time_calls);
     let (market_tx, market_rx) = tokio::sync::mpsc::unbounded_channel();
     let market_stream = tokio_stream::wrappers::UnboundedReceiverStream::new(market_rx);
     let args = SystemArgs::new(
@@ -660,6 +693,9 @@ async fn build(cfg: Cfg, lines: &mut Vec<String>) -> Running {
         sys_build.engine.meta.sequence.0,
     ));
     let iterator = sys_build.engine_feed_mode == EngineFeedMode::Iterator;
+    // time_engine_start + Engine::new (+ audit snapshot)
+    let time_calls_before_loop = 2 + (sys_build.audit_mode == AuditMode::Enabled) as usize;
+    assert_eq!(engine_time_calls.load(Ordering::SeqCst), 2, "clock calls of SystemBuilder::build");
     // tap the account channel: execution components -> [counting relay] -> system's account forwarder
     let relayed = Arc::new(AtomicUsize::new(0));
     let (tx2, rx2) = mpsc_unbounded::<AccountStreamEvent>();
@@ -684,6 +720,8 @@ async fn build(cfg: Cfg, lines: &mut Vec<String>) -> Running {
         shared,
         market_tx,
         relayed,
+        engine_time_calls,
+        time_calls_before_loop,
         handle_sent: 0,
         mkt_pushed: 0,
         mkt_count: 0,
@@ -698,8 +736,27 @@ impl Running {
         self.shared.lock().unwrap().log.len()
     }
 
+    /// events processed COMPLETELY (their audit has been built)
+    fn done(&self) -> usize {
+        self.engine_time_calls.load(Ordering::SeqCst).saturating_sub(self.time_calls_before_loop)
+    }
+
     fn engine_finished(&self) -> bool {
         self.system.as_ref().map(|s| s.engine.is_finished()).unwrap_or(true)
+    }
+
+    /// the last event the engine began is a command with a request for exchange label 1 (for which
+    /// no execution is configured): every such command ends in an unrecoverable error
+    fn last_event_names_unlinked_exchange(&self) -> bool {
+        if !self.cfg.x2 {
+            return false;
+        }
+        let unlinked = ExchangeIndex(self.labels.ex_idx[1]);
+        match self.shared.lock().unwrap().log.last() {
+            Some(EngineEvent::Command(Command::SendOpenRequests(r))) => r.iter().any(|r| r.key.exchange == unlinked),
+            Some(EngineEvent::Command(Command::SendCancelRequests(r))) => r.iter().any(|r| r.key.exchange == unlinked),
+            _ => false,
+        }
     }
 
     /// Quiescence: everything put on the feed has been processed, and `K` further scheduler rounds
@@ -712,17 +769,29 @@ impl Running {
                 tokio::task::yield_now().await;
             }
             let sent = self.handle_sent + self.mkt_pushed + self.relayed.load(Ordering::SeqCst);
-            let processed = self.log_len();
+            let processed = self.done();
             if processed >= sent || self.engine_finished() {
                 for _ in 0..K {
                     tokio::task::yield_now().await;
                 }
-                if self.iterator && !self.engine_finished() {
-                    // the engine runs on its own thread: it may be in the middle of an event
-                    std::thread::sleep(std::time::Duration::from_micros(200));
-                }
                 let sent2 = self.handle_sent + self.mkt_pushed + self.relayed.load(Ordering::SeqCst);
-                if sent2 == sent && self.log_len() == processed {
+                if sent2 == sent && self.done() == processed && self.log_len() == processed {
+                    if self.last_event_names_unlinked_exchange() {
+                        // the engine is about to stop on the unrecoverable error: between the end of
+                        // its last tick and the drop of its feed receiver it still sends the final
+                        // audit and the execution shutdowns - wait for the task to have returned
+                        // (the model treats "stopped" and "receiver dropped" as one step)
+                        let mut spins = 0usize;
+                        while !self.engine_finished() {
+                            tokio::task::yield_now().await;
+                            std::thread::sleep(std::time::Duration::from_micros(20));
+                            spins += 1;
+                            assert!(spins < 2_000_000, "engine did not stop after an unrecoverable error");
+                        }
+                        for _ in 0..K {
+                            tokio::task::yield_now().await;
+                        }
+                    }
                     return;
                 }
             } else if self.iterator {
@@ -890,6 +959,7 @@ fn run_case(case: &Case, lines: &mut Vec<String>) {
                         x2: op[5] == "1",
                         quote: parse_dec(&op[6]),
                         base: parse_dec(&op[7]),
+                        latency_ms: op[8].parse().unwrap(),
                     };
                     run = Some(build(cfg, lines).await);
                 }
@@ -958,7 +1028,11 @@ fn run_case(case: &Case, lines: &mut Vec<String>) {
                                 Err(_) => lines.push("panic".into()),
                             }
                         }
-                        "settle" => {
+                        "settle" | "sleep" => {
+                            if op[0] == "sleep" {
+                                let ms: u64 = op[1].parse().unwrap();
+                                tokio::time::advance(std::time::Duration::from_millis(ms)).await;
+                            }
                             r.settle().await;
                             r.new_events(lines);
                             lines.push(format!("alive {}", !r.engine_finished() as u8));
@@ -1018,7 +1092,8 @@ fn gen_case(out: &mut Out, rng: &mut Rng, id: &str, thorough: bool) {
     let feed = *rng.pick(&["iter", "stream", "stream", "dflt"]);
     let audit = *rng.pick(&["on", "on", "off", "dflt"]);
     let trading = *rng.pick(&["on", "on", "off", "dflt"]);
-    out.line(format!("sys {feed} {audit} {trading} {k} {} {quote} {base}", x2 as u8));
+    let latency = *rng.pick(&[0u64, 0, 50, 50, 200]);
+    out.line(format!("sys {feed} {audit} {trading} {k} {} {quote} {base} {latency}", x2 as u8));
     let cid_pool = [1u64, 2, 3, 4, 7000, 7001, 9000, 9001];
     let gen_filter = |rng: &mut Rng| -> String {
         match rng.below(6) {
@@ -1097,8 +1172,10 @@ fn gen_case(out: &mut Out, rng: &mut Rng, id: &str, thorough: bool) {
             will_die = false;
             continue;
         }
-        if rng.chance(80) {
-            out.line("settle");
+        match rng.below(10) {
+            0..=4 => out.line("settle"),
+            5..=7 => out.line(format!("sleep {}", *rng.pick(&[10u64, 50, 50, 100, 250]))),
+            _ => {}
         }
     }
     if rng.chance(30) && took < 2 {
@@ -1120,8 +1197,8 @@ fn generate(seed: u64, n_cases: usize, tier: &str) {
     let thorough = tier == "thorough";
     let mut id = 0usize;
     if thorough {
-        // small scope, exhaustively: every op sequence of length <= 3 over 7 symbols, for both feed
-        // modes and both audit modes, closed by take_audit + shutdown
+        // small scope, exhaustively: every op sequence of length <= 3 over 8 symbols, for both feed
+        // modes and both audit modes (exchange latency 50 ms), closed by take_audit + shutdown / abort
         let syms = [
             "mkt 0:100:B:1",
             "call trading on",
@@ -1130,6 +1207,7 @@ fn generate(seed: u64, n_cases: usize, tier: &str) {
             "call close none",
             "call cancel_orders none",
             "settle",
+            "sleep 50",
         ];
         for feed in ["iter", "stream"] {
             for audit in ["on", "off"] {
@@ -1138,7 +1216,7 @@ fn generate(seed: u64, n_cases: usize, tier: &str) {
                     for mut code in 0..total {
                         id += 1;
                         out.case(format!("x{id}"));
-                        out.line(format!("sys {feed} {audit} off 1 0 1000 10"));
+                        out.line(format!("sys {feed} {audit} off 1 0 1000 10 50"));
                         for _ in 0..len {
                             out.line(syms[code % syms.len()]);
                             code /= syms.len();
